@@ -275,6 +275,145 @@ def variant_source(kind, source):
                 i = 1 if (fn.body and isinstance(fn.body[0], ast.Expr) and isinstance(fn.body[0].value, ast.Constant)) else 0
                 fn.body.insert(i, ast.Assign(targets=[ast.Name(id=nm, ctx=ast.Store())], value=ast.Attribute(value=ast.Name(id="self", ctx=ast.Load()), attr=a, ctx=ast.Load())))
         return ast.unparse(ast.fix_missing_locations(tree))
+    if kind == "augassign":
+        # x += y  ->  x = x + y   (names, attributes and subscripts with call-free targets)
+        class A(ast.NodeTransformer):
+            def visit_AugAssign(self, n):
+                if any(isinstance(x, (ast.Call, ast.NamedExpr)) for x in ast.walk(n.target)):
+                    return n
+                load = ast.parse(ast.unparse(n.target), mode="eval").body
+                return ast.Assign(targets=[n.target], value=ast.BinOp(left=load, op=n.op, right=n.value))
+
+        return ast.unparse(ast.fix_missing_locations(A().visit(tree)))
+    if kind == "ternary":
+        # if c: x = a  else: x = b   ->   x = a if c else b
+        class T(ast.NodeTransformer):
+            def visit_If(self, n):
+                self.generic_visit(n)
+                if len(n.body) == 1 and len(n.orelse) == 1 and all(isinstance(s, ast.Assign) and len(s.targets) == 1 and isinstance(s.targets[0], (ast.Name, ast.Attribute)) for s in (n.body[0], n.orelse[0])) and ast.dump(n.body[0].targets[0]) == ast.dump(n.orelse[0].targets[0]):
+                    return ast.Assign(targets=[n.body[0].targets[0]], value=ast.IfExp(test=n.test, body=n.body[0].value, orelse=n.orelse[0].value))
+                return n
+
+        return ast.unparse(ast.fix_missing_locations(T().visit(tree)))
+    if kind == "retvar":
+        # return <non-trivial expr>  ->  _ret = <expr>; return _ret
+        def fix(stmts):
+            out = []
+            for st in stmts:
+                for f in ("body", "orelse", "finalbody"):
+                    v = getattr(st, f, None)
+                    if isinstance(v, list) and v and isinstance(v[0], ast.stmt) and not isinstance(st, (ast.FunctionDef, ast.ClassDef)):
+                        setattr(st, f, fix(v))
+                for h in getattr(st, "handlers", []) or []:
+                    h.body = fix(h.body)
+                if isinstance(st, ast.Return) and st.value is not None and not isinstance(st.value, (ast.Name, ast.Constant)):
+                    out.append(ast.Assign(targets=[ast.Name(id="_ret", ctx=ast.Store())], value=st.value))
+                    out.append(ast.Return(value=ast.Name(id="_ret", ctx=ast.Load())))
+                else:
+                    out.append(st)
+            return out
+
+        for fn in [n for n in ast.walk(tree) if isinstance(n, ast.FunctionDef)]:
+            if any(isinstance(x, (ast.Yield, ast.YieldFrom)) for x in ast.walk(fn)):
+                continue
+            fn.body = fix(fn.body)
+        return ast.unparse(ast.fix_missing_locations(tree))
+    if kind == "guardnest":
+        # if a and b: X  (no else)  ->  if a: if b: X
+        class G(ast.NodeTransformer):
+            def visit_If(self, n):
+                self.generic_visit(n)
+                if not n.orelse and isinstance(n.test, ast.BoolOp) and isinstance(n.test.op, ast.And):
+                    vals = n.test.values
+                    inner = ast.If(test=vals[-1] if len(vals) == 2 else ast.BoolOp(op=ast.And(), values=vals[1:]), body=n.body, orelse=[])
+                    return ast.If(test=vals[0], body=[inner], orelse=[])
+                return n
+
+        return ast.unparse(ast.fix_missing_locations(G().visit(tree)))
+    if kind == "guardmerge":
+        # if a: if b: X  (no elses, nothing else in the outer body)  ->  if a and b: X
+        class G2(ast.NodeTransformer):
+            def visit_If(self, n):
+                self.generic_visit(n)
+                if not n.orelse and len(n.body) == 1 and isinstance(n.body[0], ast.If) and not n.body[0].orelse:
+                    return ast.If(test=ast.BoolOp(op=ast.And(), values=[n.test, n.body[0].test]), body=n.body[0].body, orelse=[])
+                return n
+
+        return ast.unparse(ast.fix_missing_locations(G2().visit(tree)))
+    if kind == "earlyreturn":
+        # a function whose last statement is `if c: BODY` (no else)  ->  `if not c: return` + BODY dedented
+        for fn in [n for n in ast.walk(tree) if isinstance(n, ast.FunctionDef)]:
+            if any(isinstance(x, (ast.Yield, ast.YieldFrom)) for x in ast.walk(fn)):
+                continue
+            last = fn.body[-1]
+            if isinstance(last, ast.If) and not last.orelse and len(fn.body) > 1:
+                fn.body[-1:] = [ast.If(test=ast.UnaryOp(op=ast.Not(), operand=last.test), body=[ast.Return(value=None)], orelse=[])] + last.body
+        return ast.unparse(ast.fix_missing_locations(tree))
+    if kind == "whiletrue":
+        # while c: B  ->  while True: if not c: break; B      (loops without else)
+        class W(ast.NodeTransformer):
+            def visit_While(self, n):
+                self.generic_visit(n)
+                if n.orelse or (isinstance(n.test, ast.Constant) and n.test.value is True):
+                    return n
+                brk = ast.If(test=ast.UnaryOp(op=ast.Not(), operand=n.test), body=[ast.Break()], orelse=[])
+                return ast.While(test=ast.Constant(value=True), body=[brk] + n.body, orelse=[])
+
+        return ast.unparse(ast.fix_missing_locations(W().visit(tree)))
+    if kind == "noise":
+        # an unrelated local assignment at the start of every function body and branch, and before every return
+        def nz():
+            return ast.parse("_dbg_marker = 0").body[0]
+
+        for n in ast.walk(tree):
+            if isinstance(n, ast.FunctionDef):
+                i = 1 if (n.body and isinstance(n.body[0], ast.Expr) and isinstance(n.body[0].value, ast.Constant)) else 0
+                n.body.insert(i, nz())
+            elif isinstance(n, (ast.If, ast.For, ast.While)):
+                n.body.insert(0, nz())
+                if n.orelse and not (len(n.orelse) == 1 and isinstance(n.orelse[0], ast.If)):
+                    n.orelse.insert(0, nz())
+        return ast.unparse(ast.fix_missing_locations(tree))
+    if kind == "tupleassign":
+        # adjacent independent call-free single-name assignments  a = x; b = y  ->  a, b = x, y
+        def names(n, ctx):
+            return {x.id for x in ast.walk(n) if isinstance(x, ast.Name) and isinstance(x.ctx, ctx)}
+
+        def simple(st):
+            return isinstance(st, ast.Assign) and len(st.targets) == 1 and isinstance(st.targets[0], ast.Name) and not any(isinstance(x, (ast.Call, ast.NamedExpr, ast.Starred)) for x in ast.walk(st.value))
+
+        for n in ast.walk(tree):
+            for f in ("body", "orelse"):
+                v = getattr(n, f, None)
+                if not (isinstance(v, list) and v and isinstance(v[0], ast.stmt)):
+                    continue
+                i = 0
+                while i + 1 < len(v):
+                    a, b = v[i], v[i + 1]
+                    if simple(a) and simple(b) and a.targets[0].id != b.targets[0].id and a.targets[0].id not in names(b.value, ast.Load):
+                        v[i : i + 2] = [ast.Assign(targets=[ast.Tuple(elts=[a.targets[0], b.targets[0]], ctx=ast.Store())], value=ast.Tuple(elts=[a.value, b.value], ctx=ast.Load()))]
+                    i += 1
+        return ast.unparse(ast.fix_missing_locations(tree))
+    if kind == "annotate":
+        # every un-annotated parameter (except self / cls) gets `: object`, every function `-> object`
+        for fn in [n for n in ast.walk(tree) if isinstance(n, ast.FunctionDef)]:
+            for a in fn.args.posonlyargs + fn.args.args + fn.args.kwonlyargs:
+                if a.arg not in ("self", "cls") and a.annotation is None:
+                    a.annotation = ast.Name(id="object", ctx=ast.Load())
+            if fn.returns is None and fn.name != "__init__":
+                fn.returns = ast.Name(id="object", ctx=ast.Load())
+        return ast.unparse(ast.fix_missing_locations(tree))
+    if kind == "isnot":
+        # `x is not None` -> `not (x is None)`, `a not in b` -> `not (a in b)`
+        class N(ast.NodeTransformer):
+            def visit_Compare(self, n):
+                self.generic_visit(n)
+                if len(n.ops) == 1 and isinstance(n.ops[0], (ast.IsNot, ast.NotIn)):
+                    pos = {ast.IsNot: ast.Is, ast.NotIn: ast.In}[type(n.ops[0])]()
+                    return ast.UnaryOp(op=ast.Not(), operand=ast.Compare(left=n.left, ops=[pos], comparators=n.comparators))
+                return n
+
+        return ast.unparse(ast.fix_missing_locations(N().visit(tree)))
     if kind == "numpy":
         has = any(isinstance(n, ast.Import) and any(a.name == "numpy" and a.asname == "np" for a in n.names) for n in ast.walk(tree))
         if not has:
